@@ -262,6 +262,19 @@ func RecvCase(ch interface{}, done func() bool) Case {
 }
 func SendCase(ch interface{}) Case { return Case{ch: reflect.ValueOf(ch), send: true} }
 
+func (c Case) readyPlain() bool {
+	if c.done != nil {
+		return c.done()
+	}
+	if !c.ch.IsValid() || c.ch.IsNil() {
+		return false
+	}
+	if c.send {
+		return c.ch.Len() < c.ch.Cap()
+	}
+	return c.ch.Len() > 0
+}
+
 func (c Case) ready() bool {
 	if c.done != nil {
 		return c.done()
@@ -284,7 +297,19 @@ func (c Case) ready() bool {
 // among the ready cases. The caller then performs exactly that case's operation.
 func Select(hasDefault bool, cases ...Case) int {
 	if s == nil {
-		panic("vsched.Select outside the scheduler")
+		// outside the scheduler (harness set-up code): plain semantics, first ready case, polling
+		// for the blocking form
+		for {
+			for i, c := range cases {
+				if c.readyPlain() {
+					return i
+				}
+			}
+			if hasDefault {
+				return -1
+			}
+			time.Sleep(50 * time.Microsecond)
+		}
 	}
 	anyReady := func() bool {
 		for _, c := range cases {
